@@ -2,13 +2,28 @@
 import glob, json, os
 import vlib
 
-TARGETS = ["Base/Corr.vo", "C11/Model.vo", "C11/Corr.vo", "C11/Spec.vo", "C11/SpecTest.vo",
-           "C11/ProofsMap.vo", "C11/ProofsInv.vo", "C11/ProofsRef.vo", "C11/ProofsIter.vo", "C11/Props.vo"]
-PROPS = ["C11/Props.v"]
-PARTIAL = ("Theorems are about the hand-written model coq/C11/Model.v of vector_sparse_template.in (heap of cells + "
-           "value map + ordered key set standing for the AVL index, justified by C19). Element carrier Z. "
-           "Sparse matrices (header + one sparse vector) are not modelled. Iterators held across mutations are modelled "
-           "only as partially consumed and abandoned iterators (IterPart). See Props.v for statements named _partial.")
+TARGETS = ["Base/Corr.vo", "C11/Model.vo", "C11/Spec.vo", "C11/Dense.vo", "C11/Corr.vo", "C11/SpecTest.vo",
+           "C11/ProofsMap.vo", "C11/ProofsInv.vo", "C11/ProofsRef.vo", "C11/ProofsIter.vo",
+           "C11/ProofsD1.vo", "C11/ProofsD2.vo", "C11/ProofsD3.vo", "C11/ProofsDSort.vo", "C11/ProofsDSet.vo",
+           "C11/ProofsDense.vo", "C11/ProofsDOut.vo", "C11/ProofsShare.vo", "C11/Props.vo",
+           # part 2: iterators held across mutations
+           "C11/ModelIt.vo", "C11/CorrIt.vo", "C11/ProofsIt.vo", "C11/PropsIt.vo", "C11/SpecTestIt.vo",
+           # part 3: sparse matrices (whole matrices)
+           "C11/ModelMat.vo", "C11/CorrMat.vo", "C11/ProofsMatSpec.vo", "C11/ProofsMat.vo", "C11/ProofsMatRef.vo",
+           "C11/ProofsMatDense.vo", "C11/ProofsMatDense2.vo", "C11/ProofsMatDense3.vo",
+           "C11/PropsMat.vo", "C11/SpecTestMat.vo"]
+PROPS = ["C11/Props.v", "C11/PropsIt.v", "C11/PropsMat.v"]
+PROP_MODULES = [("C11.Props", "C11/Props.v"), ("C11.PropsIt", "C11/PropsIt.v"), ("C11.PropsMat", "C11/PropsMat.v")]
+PARTIAL = ("Theorems are about the hand-written models coq/C11/Model.v (vector_sparse_template.in: heap of cells + "
+           "value map + ordered key set standing for the AVL index, justified by C19), ModelIt.v (held iterators) and "
+           "ModelMat.v (sparse matrices, whole matrices only). Element carrier Z. The dense refinement is stated for "
+           "histories in which in-place writes go to vectors holding no scalar shared with another vector (Dense.safe; "
+           "shared-cell writes = known finding C11-SLICEWT). Iterators held across an index-replacing operation "
+           "(ReverseOrder/Sort/Permute) are modelled exactly only when no in-place index edit happened since their "
+           "last move (else Unknown: no prediction); known finding C11-STALEIT. Sparse matrix views (Slice) are C10's "
+           "findings and excluded; for matrices the invariant, reads, iteration and dims are proved for all histories, the dense "
+           "refinement per operation for SetAt/Swap/Reset/SetIdentity/Clone/T/Set(dense source) only "
+           "(PropsMat.mat_refinement_single_step_partial lists the rest). See Props*.v for statements named _partial.")
 KNOWN_PROPOSED = os.path.join(vlib.ROOT, "corpus/C11/known_findings_proposed.json")
 
 
@@ -50,6 +65,55 @@ def corr(ctx, binary, n, corpus):
     return bad
 
 
+def corr_part(ctx, binary, name, n, corpus, what):
+    """correspondence of one of the additional parts (held iterators / matrices): harness mode
+    `--extra <name>:<corpus>`, shards <name>_<k>.v, cases <name>.jsonl, meta <name>.meta.json"""
+    rc, out = vlib.run_harness(ctx, binary, n, extra="%s:%s" % (name, corpus))
+    mp = os.path.join(ctx.dir, name + ".meta.json")
+    if rc != 0 or not os.path.exists(mp):
+        ctx.violation({"obligation": "C11 harness run (%s)" % what, "log": out[-3000:]}, False,
+                      "harness failed on the implementation (%s)" % what)
+        return []
+    meta = json.load(open(mp))
+    vlib.merge_meta(ctx, meta)
+    pre = len(name) + 1
+    shards = sorted(glob.glob(os.path.join(ctx.dir, name + "_*.v")),
+                    key=lambda p: int(os.path.basename(p)[pre:-2]))
+    res = vlib.eval_shards(shards)
+    ctx.oblige(len(res), sum(1 for r in res if r["ok"]))
+    cases = vlib.load_jsonl(os.path.join(ctx.dir, name + ".jsonl"))
+    bad = []
+    for k, r in enumerate(res):
+        if r["ok"]:
+            continue
+        if r["mism"] is None:
+            ctx.violation({"obligation": "correspondence shard " + os.path.basename(r["path"]),
+                           "coqc_error": r["error"]}, False, "correspondence shard did not evaluate (%s)" % what)
+            continue
+        for i in r["mism"]:
+            bad.append(cases[k * meta["per_shard"] + i])
+    ctx.log("correspondence (%s): %d histories in %d shards (%.0fs coqc), %d mismatching" % (
+        what, len(cases), len(res), sum(r["secs"] for r in res), len(bad)))
+    return bad
+
+
+def hunt_part(ctx, binary, mode, bad, n):
+    """property-level hunt of one of the additional parts: `--extra <mode>` writes <mode>.json"""
+    rp = os.path.join(ctx.dir, mode + "_in.json")
+    json.dump({"cases": bad[:50]}, open(rp, "w"))
+    rc, out = vlib.sh([binary, "--extra", mode, "--replay", rp, "--n", str(n), "--seed", str(ctx.seed),
+                       "--out", ctx.dir], timeout=900, env=vlib.go_env())
+    hp = os.path.join(ctx.dir, mode + ".json")
+    if rc == 0 and os.path.exists(hp):
+        h = json.load(open(hp))
+        ctx.cov.setdefault("extra", {})[mode + "_histories_tried"] = h.get("tried")
+        if h.get("found"):
+            return h
+    elif rc != 0:
+        ctx.notes.append("%s run failed: %s" % (mode, out[-500:]))
+    return None
+
+
 def hunt(ctx, binary, bad):
     rp = os.path.join(ctx.dir, "hunt_in.json")
     json.dump({"cases": bad[:50]}, open(rp, "w"))
@@ -69,11 +133,14 @@ def hunt(ctx, binary, bad):
 
 def known(ctx, binary):
     """Replay the witnesses of the recorded findings on the implementation."""
-    rc, out = vlib.sh([binary, "--extra", "known", "--out", ctx.dir], timeout=300, env=vlib.go_env())
-    kp = os.path.join(ctx.dir, "known.json")
-    if rc != 0 or not os.path.exists(kp):
-        return
-    seen = {k["id"]: k for k in json.load(open(kp))}
+    seen = {}
+    for mode, fn in (("known", "known.json"), ("heldknown", "heldknown.json")):
+        rc, out = vlib.sh([binary, "--extra", mode, "--out", ctx.dir], timeout=300, env=vlib.go_env())
+        kp = os.path.join(ctx.dir, fn)
+        if rc != 0 or not os.path.exists(kp):
+            ctx.notes.append("known-finding replay '%s' did not run: %s" % (mode, out[-300:]))
+            continue
+        seen.update({k["id"]: k for k in json.load(open(kp))})
     for f in known_list():
         k = seen.get(f["id"])
         if k and k["confirmed"]:
@@ -85,14 +152,15 @@ def known(ctx, binary):
 def run(ctx):
     ctx.cov["trusted_base"] = vlib.TRUSTED_BASE_COMMON + [
         "hook /repo/verif_c11.go (read-only dump of the private map, nil placeholders and AVL index keys)",
+        "hook /repo/verif_c11_mat.go (read-only: the private values vector of a sparse matrix) and C10's VerifC10Header",
         "the AVL index is abstracted to its ordered key set (C19's refinement theorem)",
         "axioms: see 'print_assumptions' (expected: closed under the global context)"]
     ctx.cov["partial"] = PARTIAL
     ok, failures = vlib.proof_stage(ctx, TARGETS, PROPS)
-    thms = vlib.theorem_names(os.path.join(vlib.COQ, "C11/Props.v"))
-    ctx.cov["theorems"] = thms
+    mods = [(m, vlib.theorem_names(os.path.join(vlib.COQ, f))) for m, f in PROP_MODULES]
+    ctx.cov["theorems"] = [t for _, ths in mods for t in ths]
     if ok:
-        ctx.cov["print_assumptions"] = vlib.print_assumptions("C11", [("C11.Props", thms)], ctx.dir)
+        ctx.cov["print_assumptions"] = vlib.print_assumptions("C11", mods, ctx.dir)
     binary, blog = vlib.build_harness("c11")
     if binary is None:
         ctx.violation({"obligation": "build of harness/c11 against the library", "log": blog[-3000:]}, False,
@@ -100,12 +168,32 @@ def run(ctx):
         return
     n = 300 if ctx.tier == "quick" else 3000
     bad = corr(ctx, binary, n, os.path.join(vlib.ROOT, "corpus/C11/corpus.jsonl"))
+    nh = 90 if ctx.tier == "quick" else 900
+    bad_held = corr_part(ctx, binary, "held", nh, os.path.join(vlib.ROOT, "corpus/C11/held_corpus.jsonl"),
+                         "iterators held across mutations")
+    bad_mat = corr_part(ctx, binary, "mat", nh, os.path.join(vlib.ROOT, "corpus/C11/mat_corpus.jsonl"),
+                        "sparse matrices")
     known(ctx, binary)
     h0 = hunt(ctx, binary, bad)
-    broken = [f["target"] for f in failures] + (["correspondence C11.Corr.check"] if bad else [])
+    broken = [f["target"] for f in failures] + (["correspondence C11.Corr.check"] if bad else []) + \
+             (["correspondence C11.CorrIt (held iterators)"] if bad_held else []) + \
+             (["correspondence C11.CorrMat (sparse matrices)"] if bad_mat else [])
     if h0:
         ctx.violation({"case": h0["case"], "failure": h0["failure"], "at": h0["at"], "broken": broken}, True,
                       "sparse vector violates coherence / dense agreement / iteration: " + h0["failure"])
+        return
+    h1 = hunt_part(ctx, binary, "heldhunt", bad_held, 3000 if ctx.tier == "quick" else 30000)
+    if h1:
+        ctx.violation({"case": h1["case"], "failure": h1["failure"], "at": h1.get("at"), "broken": broken,
+                       "part": "held"}, True,
+                      "a held sparse-vector iterator does not visit exactly the remaining non-zero positions: "
+                      + h1["failure"])
+        return
+    h2 = hunt_part(ctx, binary, "mathunt", bad_mat, 3000 if ctx.tier == "quick" else 30000)
+    if h2:
+        ctx.violation({"case": h2["case"], "failure": h2["failure"], "at": h2.get("at"), "broken": broken,
+                       "part": "mat"}, True,
+                      "sparse matrix violates coherence / dense agreement / iteration: " + h2["failure"])
         return
     for f in failures:
         ctx.violation({"obligation": f["target"], "lemma": f["lemma"], "errors": f["errors"]}, False,
@@ -114,6 +202,16 @@ def run(ctx):
         ctx.violation({"case": bad[0], "obligation": "correspondence C11.Corr.check (model vs implementation)"},
                       False, "model and implementation disagree on a history (%d of them), but no history "
                       "violating the property itself was found" % len(bad))
+    if bad_mat:
+        ctx.violation({"case": bad_mat[0], "part": "mat",
+                       "obligation": "correspondence C11.CorrMat (sparse-matrix model vs implementation)"},
+                      False, "sparse-matrix model and implementation disagree on a history (%d of them), but no "
+                      "history violating the property itself was found" % len(bad_mat))
+    if bad_held:
+        ctx.violation({"case": bad_held[0], "part": "held",
+                       "obligation": "correspondence C11.CorrIt.check_it (held-iterator model vs implementation)"},
+                      False, "held-iterator model and implementation disagree on a history (%d of them), but no "
+                      "history violating the property itself was found" % len(bad_held))
 
 
 def replay(ctx, path):
@@ -125,6 +223,21 @@ def replay(ctx, path):
         print("replay names a broken obligation, not an input: %s" % rp.get("obligation"))
         ok, failures = vlib.proof_stage(ctx, TARGETS, PROPS)
         return 0 if ok else 1
+    part = rp.get("part")
+    if part in ("held", "mat"):
+        # additional parts: `--extra <part> --replay` writes <part>replay_*.v, `--extra <part>hunt` judges the property
+        vlib.sh([binary, "--extra", part, "--replay", path, "--out", ctx.dir], env=vlib.go_env())
+        pat = "heldreplay_*.v" if part == "held" else "replay_mat_*.v"
+        res = vlib.eval_shards(sorted(glob.glob(os.path.join(ctx.dir, pat))))
+        hin = os.path.join(ctx.dir, part + "hunt_in.json")
+        case = dict(rp["case"]); case.pop("outs", None)
+        json.dump({"cases": [case]}, open(hin, "w"))
+        vlib.sh([binary, "--extra", part + "hunt", "--replay", hin, "--n", "0", "--out", ctx.dir], env=vlib.go_env())
+        h = json.load(open(os.path.join(ctx.dir, part + "hunt.json")))
+        agree = bool(res) and all(r["ok"] for r in res)
+        print("model/implementation agree on the replayed history (%s): %s" % (part, agree))
+        print("property oracle on the implementation: %s" % (h["failure"] if h.get("found") else "holds"))
+        return 1 if (h.get("found") or not agree) else 0
     vlib.sh([binary, "--replay", path, "--out", ctx.dir], env=vlib.go_env())
     res = vlib.eval_shards(sorted(glob.glob(os.path.join(ctx.dir, "replay_*.v"))))
     hin = os.path.join(ctx.dir, "hunt_in.json")
